@@ -108,7 +108,8 @@ impl Assignment {
         // `modify` writes the variable the function captured: the name is looked up outside
         // of the function, not only outside of the block the statement is in
         let skip = if is_modify {
-            user_data.scopes_in_function().unwrap_or(1)
+            // (outside of any function there is nothing that could have been captured)
+            user_data.scopes_in_function().unwrap_or(usize::MAX)
         } else {
             0
         };
